@@ -74,4 +74,18 @@ def progSpec (progS : Sexp) (valsS : List Sexp) : Sexp :=
          (if Spec.intersectionsOfObjects p then [] else [Sexp.atom "IntersectionsOfObjects"])))]
   | _, _ => .list [.atom "spec-decode-error"]
 
+/-- `(rewrite id p files values p' files' script)`: model bits of both programs -/
+def rewriteOp (pS qS : Sexp) (valsS : List Sexp) : Sexp :=
+  .list [.atom "pair", progOp pS valsS, progOp qS valsS]
+
+def rewriteHyps (pS qS : Sexp) (script : List Sexp) : Sexp :=
+  match decProg pS, decProg qS with
+  | some p, some q =>
+    let naming := script.any fun k => match k with | .atom s => Spec.namingRewrites.contains s | _ => false
+    .list (.atom "hyp-failed" ::
+      ((if naming && (Spec.hasUnion p || Spec.hasUnion q) then [Sexp.atom "NoNamingNearUnion"] else []) ++
+       (if naming && (Spec.hasRecursion p || Spec.hasRecursion q) then [Sexp.atom "NoNamingWithRecursion"] else []) ++
+       (if naming && (Spec.hasRefInInter p || Spec.hasRefInInter q) then [Sexp.atom "NoNamedIntersectionMember"] else [])))
+  | _, _ => .list [.atom "hyp-failed"]
+
 end BeffVerif.Driver
